@@ -53,6 +53,9 @@ pub struct Search<'a, S: Sys> {
     deadline: Option<std::time::Instant>,
     found: std::sync::Mutex<Vec<Found<S::Action>>>,
     max_found: usize,
+    /// message classes that are collected (first occurrence each) without stopping the search
+    tolerate: &'a [String],
+    tolerated: std::sync::Mutex<Vec<Found<S::Action>>>,
     samples: std::sync::Mutex<Vec<Vec<S::Action>>>,
     par_levels: usize,
 }
@@ -77,7 +80,7 @@ impl<'a, S: Sys> Search<'a, S> {
                 self.transitions.fetch_add(1, Ordering::Relaxed);
                 let mut tr = trace.clone();
                 tr.push(a.clone());
-                match self.sys.step(s, &a) {
+                match crate::util::catch_subject_panic(|| self.sys.step(s, &a)).and_then(|r| r) {
                     Err(what) => self.report(what, &tr),
                     Ok(ns) => self.visit(&ns, &mut tr, left - 1),
                 }
@@ -90,7 +93,7 @@ impl<'a, S: Sys> Search<'a, S> {
             }
             self.transitions.fetch_add(1, Ordering::Relaxed);
             trace.push(a.clone());
-            match self.sys.step(s, &a) {
+            match crate::util::catch_subject_panic(|| self.sys.step(s, &a)).and_then(|r| r) {
                 Err(what) => {
                     self.report(what, trace);
                 }
@@ -103,9 +106,16 @@ impl<'a, S: Sys> Search<'a, S> {
     }
 
     fn report(&self, what: String, trace: &[S::Action]) {
-        let mut f = self.found.lock().unwrap();
         // one per distinct message class (text up to the first ':')
         let class = what.split(':').next().unwrap_or("").to_string();
+        if self.tolerate.iter().any(|t| *t == class) {
+            let mut t = self.tolerated.lock().unwrap();
+            if !t.iter().any(|x| x.what.split(':').next().unwrap_or("") == class) {
+                t.push(Found { what, trace: trace.to_vec() });
+            }
+            return;
+        }
+        let mut f = self.found.lock().unwrap();
         if f.iter().any(|x| x.what.split(':').next().unwrap_or("") == class) {
             return;
         }
@@ -138,7 +148,7 @@ impl<'a, S: Sys> Search<'a, S> {
         }
         if first {
             self.checks.fetch_add(1, Ordering::Relaxed);
-            match self.sys.check(ns, trace) {
+            match crate::util::catch_subject_panic(|| self.sys.check(ns, trace)).and_then(|r| r) {
                 Ok(nt) => {
                     if nt {
                         let n = self.nontrivial.fetch_add(1, Ordering::Relaxed);
@@ -167,6 +177,10 @@ pub struct StateCfg {
     pub max_found: usize,
     /// start iterative deepening at this depth (1 = full ID)
     pub first_depth: usize,
+    /// message classes (text up to the first ':') of listed known findings: their first occurrence
+    /// is returned with the other findings, but they neither stop the search nor end the
+    /// deepening (the violating state itself is still not expanded)
+    pub tolerate: Vec<String>,
 }
 
 /// Iterative-deepening exploration. Returns stats, violations and a few sample traces.
@@ -174,6 +188,7 @@ pub struct StateCfg {
 pub fn explore<S: Sys>(sys: &S, cfg: &StateCfg) -> (StateStats, Vec<Found<S::Action>>, Vec<Vec<S::Action>>) {
     let mut stats = StateStats::default();
     let mut all_found = vec![];
+    let mut tolerated: Vec<Found<S::Action>> = vec![];
     let mut samples = vec![];
     let mut depth = cfg.first_depth.max(1).min(cfg.max_depth);
     loop {
@@ -187,6 +202,8 @@ pub fn explore<S: Sys>(sys: &S, cfg: &StateCfg) -> (StateStats, Vec<Found<S::Act
             deadline: cfg.deadline,
             found: std::sync::Mutex::new(vec![]),
             max_found: cfg.max_found,
+            tolerate: &cfg.tolerate,
+            tolerated: std::sync::Mutex::new(vec![]),
             samples: std::sync::Mutex::new(vec![]),
             par_levels: 3,
         };
@@ -201,6 +218,12 @@ pub fn explore<S: Sys>(sys: &S, cfg: &StateCfg) -> (StateStats, Vec<Found<S::Act
         search.dfs(&init, &mut tr0, depth);
         let capped = search.stop.load(Ordering::Relaxed) && search.found.lock().unwrap().is_empty();
         let found = std::mem::take(&mut *search.found.lock().unwrap());
+        // the shallowest occurrence of each tolerated class
+        for t in std::mem::take(&mut *search.tolerated.lock().unwrap()) {
+            if !tolerated.iter().any(|x| x.what.split(':').next() == t.what.split(':').next()) {
+                tolerated.push(t);
+            }
+        }
         stats.states = search.visited.len() as u64;
         stats.transitions += search.transitions.load(Ordering::Relaxed);
         stats.checks += search.checks.load(Ordering::Relaxed);
@@ -222,5 +245,6 @@ pub fn explore<S: Sys>(sys: &S, cfg: &StateCfg) -> (StateStats, Vec<Found<S::Act
         }
         depth += 1;
     }
+    all_found.extend(tolerated);
     (stats, all_found, samples)
 }
